@@ -176,6 +176,13 @@ class NpStub:
                 j -= 1
         return Arr(out)
 
+    # scalar constructors: the harness values are exact in every float width, so these are identities on them
+    @staticmethod
+    def float32(x):
+        return x
+
+    float64 = float32
+
     @staticmethod
     def asarray(a, dtype=None):
         return a if isinstance(a, Arr) else Arr(a)
